@@ -68,6 +68,7 @@ type pnReader struct {
 	wide   bool // read every watched account, not only those the momentum touches
 	reads  int
 	panics []string
+	probe  *pnProbe // the reader is a probe of the listener table as well (s_poolnode_listeners.go)
 }
 
 func (r *pnReader) read(dm *nom.DetailedMomentum) {
@@ -124,11 +125,13 @@ func (r *pnReader) read(dm *nom.DetailedMomentum) {
 }
 
 func (r *pnReader) InsertMomentum(dm *nom.DetailedMomentum) {
+	r.probe.InsertMomentum(dm)
 	if r.onIns {
 		r.read(dm)
 	}
 }
 func (r *pnReader) DeleteMomentum(dm *nom.DetailedMomentum) {
+	r.probe.DeleteMomentum(dm)
 	if r.onDel {
 		r.read(dm)
 	}
@@ -153,6 +156,7 @@ type pnNode struct {
 	bridge  protocol.ChainBridge
 	readers []*pnReader
 	stop    func()
+	ls      *pnListeners // the harness's listeners on the node's momentum event manager
 }
 
 // newPnFollower builds a follower node whose first listener (before the account pool) and last listener (after it) are readers.
@@ -179,13 +183,18 @@ func newPnFollower(c *Ctx, name string, mode int) (*pnNode, error) {
 			before.onIns, before.onDel, after.onIns, after.onDel = c.R.Intn(2) == 0, c.R.Intn(2) == 0, c.R.Intn(2) == 0, true
 			before.wide, after.wide = c.R.Intn(2) == 0, c.R.Intn(2) == 0
 		}
+		n.ls = newPnListeners(c, ch)
+		before.probe = n.ls.readerProbe("reader-before-pool")
 		ch.Register(before) // Init registers the account pool: this listener is told first
 		cons := consensus.NewConsensus(db.NewMemDB(), ch, true)
 		common.DealWithErr(ch.Init())
 		common.DealWithErr(cons.Init())
 		common.DealWithErr(ch.Start())
 		common.DealWithErr(cons.Start())
+		after.probe = n.ls.readerProbe("reader-after-pool")
 		ch.Register(after)
+		n.ls.fixed = 2
+		n.ls.verify(name, "creation", func(string, ...interface{}) {}) // reads the chain: the events are counted from here
 		sup := vm.NewSupervisor(ch, cons)
 		n.ch = ch
 		n.bridge = protocol.NewChainBridge(ch, cons, verifier.NewVerifier(ch, cons), sup)
@@ -247,6 +256,9 @@ func (r *pnRun) learn(blocks ...*nom.AccountBlock) {
 func (r *pnRun) check(n *pnNode, what string) bool {
 	c := r.c
 	ok := true
+	if !n.ls.verify(n.name, what, r.fail) {
+		ok = false
+	}
 	for _, rd := range n.readers {
 		if len(rd.panics) > 0 {
 			r.fail("%s after %s: a reader inside a momentum notification (%s) panicked: %s", n.name, what, rd.where, rd.panics[0])
@@ -335,6 +347,7 @@ func (r *pnRun) deliver(n *pnNode, what string, path []types.Hash, from, to int)
 	before := n.height()
 	var idx int
 	var err error
+	n.ls.churn(n.name, r.fail)
 	p := safely(func() { idx, err = n.bridge.InsertChain(wire(batch)) })
 	last := batch[len(batch)-1].Momentum
 	op := fmt.Sprintf("%s (InsertChain of %d momentum(s) %d..%d, node at height %d)", what, len(batch), batch[0].Momentum.Height, last.Height, before)
@@ -369,6 +382,9 @@ func (r *pnRun) gossip(n *pnNode, what string, b *nom.AccountBlock) error {
 	cp, derr := nom.DeserializeAccountBlock(mustSerialize(b))
 	if derr != nil {
 		return derr
+	}
+	if r.c.R.Intn(3) == 0 {
+		n.ls.churn(n.name, r.fail)
 	}
 	if p := safely(func() { err = n.bridge.AddAccountBlocks([]*nom.AccountBlock{cp}) }); p != "" {
 		r.fail("%s: %s (AddAccountBlocks of %s/%s) panics: %s", n.name, what, addrName(b.Address), pnId(b.Identifier()), firstLine(p))
@@ -408,11 +424,14 @@ func poolNodeHistory(c *Ctx, id int) {
 	r := &pnRun{c: c, id: id, hist: &history{byHash: map[types.Hash]*histNode{}}, known: map[types.Address]map[types.HashHeight]bool{}}
 	aBridge := protocol.NewChainBridge(a.Chain(), a.Z.Consensus(), verifier.NewVerifier(a.Chain(), a.Z.Consensus()), a.Sup)
 	aReader := &pnReader{c: c, ch: a.Chain(), where: "after-pool", onIns: true, onDel: true, wide: id%2 == 1}
+	A := &pnNode{name: "producer", ch: a.Chain(), bridge: aBridge, readers: []*pnReader{aReader}, ls: newPnListeners(c, a.Chain())}
 	if c.Args["producer-reader"] != "off" {
+		aReader.probe = A.ls.readerProbe("reader-after-pool")
+		A.ls.fixed = 1
 		a.Chain().Register(aReader)
 		defer a.Chain().UnRegister(aReader)
 	}
-	A := &pnNode{name: "producer", ch: a.Chain(), bridge: aBridge, readers: []*pnReader{aReader}}
+	A.ls.verify("producer", "creation", func(string, ...interface{}) {})
 
 	// the path from genesis to the producer's frontier, recorded
 	pathNow := func() []types.Hash {
@@ -436,10 +455,14 @@ func poolNodeHistory(c *Ctx, id int) {
 	a.OnMomentum = func(dm *nom.DetailedMomentum) {
 		r.learn(dm.AccountBlocks...)
 		r.check(A, fmt.Sprintf("producing momentum %d", dm.Momentum.Height))
+		if c.R.Intn(3) == 0 {
+			A.ls.churn("producer", r.fail)
+		}
 	}
 	rollback := func(to types.HashHeight) bool {
 		from := a.Height()
 		var err error
+		A.ls.churn("producer", r.fail)
 		if p := safely(func() {
 			ins := a.Chain().AcquireInsert("zvh pool-node rollback")
 			defer ins.Unlock()
